@@ -313,6 +313,40 @@ def _tree_case(vals, acc):
         shutil.rmtree(top, ignore_errors=True)
 
 
+def _rewrite_case(vals, acc):
+    """The digest is that of the content *now*: the file is rewritten in place between two
+    calls (same path, same inode, same length; the modification time put back as copy -p /
+    rsync -t / a tar restore do)."""
+    from oslo_utils import fileutils
+    size, alg, restore, seed = vals
+    path = os.path.join(tmpdir(), 'rewrite-%d-%s-%d' % (size, alg, restore))
+    a, b = filler(seed, size, 1), filler(seed + 1, size, 2)
+    acc.nontrivial(repr(vals))
+    try:
+        with open(path, 'wb') as f:
+            f.write(a)
+        st = os.stat(path)
+        first = fileutils.compute_file_checksum(path, algorithm=alg)
+        with open(path, 'r+b') as f:
+            f.write(b)
+        if restore:
+            os.utime(path, ns=(st.st_atime_ns, st.st_mtime_ns))
+        second = fileutils.compute_file_checksum(path, algorithm=alg)
+        lb = fileutils.last_bytes(path, 4)
+        if first != hashlib.new(alg, a).hexdigest() or second != hashlib.new(alg, b).hexdigest() or \
+                lb != (b[max(0, size - 4):], max(0, size - 4)):
+            acc.fail('checksum-after-rewrite-in-place',
+                     {'size': size, 'algorithm': alg, 'mtime_restored': bool(restore),
+                      'first_ok': first == hashlib.new(alg, a).hexdigest(),
+                      'second': second, 'want': hashlib.new(alg, b).hexdigest()},
+                     {'rewrite': [size, alg, restore, seed]})
+    finally:
+        try:
+            os.unlink(path)
+        except OSError:
+            pass
+
+
 def check_tempfile(rep):
     from oslo_utils import fileutils
     base = tempfile.mkdtemp(prefix='verif-c20t-')
@@ -546,6 +580,8 @@ def run(ctx):
         E.run(rep, 'sparse-files', [[4096, 12288, 65537, 196608, (1 << 20) + 5],
                                     ['hole-at-end', 'hole-in-middle', 'hole-at-start', 'all-hole', 'two-holes'],
                                     [4096, 65536, 1000], [ctx.seed]], _sparse_case)
+        E.run(rep, 'rewritten-in-place', [[1, 7, 4096, 65537], ['sha256', 'md5'], [0, 1], [ctx.seed]],
+              _rewrite_case)
         from vlib import lits
         counts = {0, 1, 7, 65535, 65536, 65537, 131073}
         for v in lits.new('oslo_utils/fileutils.py')['ints']:
@@ -600,10 +636,12 @@ def replay(payload):
             return {'violates': got != (content[size - take:], size - take), 'got': repr(got)[:100]}
         finally:
             shutil.rmtree(d, ignore_errors=True)
-    if 'sparse' in payload or 'content' in payload or 'tree' in payload:
+    if 'sparse' in payload or 'content' in payload or 'tree' in payload or 'rewrite' in payload:
         acc = _Acc()
         try:
-            if 'sparse' in payload:
+            if 'rewrite' in payload:
+                _rewrite_case(tuple(payload['rewrite']), acc)
+            elif 'sparse' in payload:
                 _sparse_case(tuple(payload['sparse']), acc)
             elif 'content' in payload:
                 _content_case(tuple(payload['content']), acc)
